@@ -10,5 +10,5 @@ wt = "/var/tmp/seed-%s%s" % (pid, suf)
 subprocess.run(["git", "-C", "/repo", "worktree", "add", "--detach", "-f", wt, "HEAD"], capture_output=True)
 subprocess.run("cp /repo/breezy/*.so %s/breezy/" % wt, shell=True)
 open("/var/tmp/me/seed-%s%s.txt" % (pid, suf), "w").write(
-    open('/verif/notes/seed-prompt.txt').read().replace("{WT}", wt).replace("{PROP}", txt))
+    open('/verif/notes/seed-prompt2.txt' if suf else '/verif/notes/seed-prompt.txt').read().replace("{WT}", wt).replace("{PROP}", txt))
 print(wt)
